@@ -378,6 +378,14 @@ class Node(ModelElement):
 
         node_id = self.topo.graph_model.find_ns_by_name(parent_node_id=self.node_id,
                                                         nsname=name)
+        # service ports of other services facing our interfaces (or their sub-interfaces) are removed with them,
+        # so they are not left without a peer
+        for pi in NetworkService(name=name, node_id=node_id, topo=self.topo).interface_list:
+            for i in (pi, *pi.interface_list):
+                peers = i.get_peers(itype=InterfaceType.ServicePort)
+                if peers:
+                    for peer in peers:
+                        self.topo.graph_model.remove_cp_and_links(node_id=peer.node_id)
         self.topo.graph_model.remove_ns_with_cps_and_links(node_id=node_id)
 
     def remove_storage(self, name: str) -> None:
